@@ -408,7 +408,7 @@ func propC15(c *Ctx) {
 		for _, s := range eff.Where(func(s *Site) bool { return s.Kind == SIface && s.Method == "SetPriceForCurrencyPair" }) {
 			o2.Sites++
 			for _, r := range eff.OwnerNames(s) {
-				if r != "opchild/l2connect.WritePrices" {
+				if r != "(opchild/keeper.MsgServer).UpdateOracle" {
 					o2.Fail(c.W.Pos(s.Pos), "price written from "+r+attributedNote(s, r), nil)
 				}
 			}
@@ -424,12 +424,10 @@ func propC15(c *Ctx) {
 	})
 
 	c.Rule("C15.R5", func() {
-		c.writersTable("C15.R5", "opchild/keeper.HostValidatorStore", "validators", setOf("Set"), []string{"(opchild/keeper.HostValidatorStore).SetValidator"})
-		c.writersTable("C15.R5", "opchild/keeper.HostValidatorStore", "validators", setOf("Remove", "Clear"), []string{"(*opchild/keeper.HostValidatorStore).UpdateValidators"})
-		c.writersTable("C15.R5", "opchild/keeper.HostValidatorStore", "lastHeight", setOf("Set", "Remove"), []string{"(*opchild/keeper.HostValidatorStore).UpdateValidators"})
-		for _, m := range []string{"SetValidator", "DeleteAllValidators", "SetLastHeight"} {
-			callersTable(c, "C15.R5", c.Method(childKeeper, "HostValidatorStore", m), []string{"(*opchild/keeper.HostValidatorStore).UpdateValidators"})
+		for _, ms := range []map[string]bool{setOf("Set"), setOf("Remove", "Clear")} {
+			c.writersTable("C15.R5", "opchild/keeper.HostValidatorStore", "validators", ms, []string{"(opchild/keeper.Keeper).UpdateHostValidatorSet"})
 		}
+		c.writersTable("C15.R5", "opchild/keeper.HostValidatorStore", "lastHeight", setOf("Set", "Remove"), []string{"(opchild/keeper.Keeper).UpdateHostValidatorSet"})
 		callersTable(c, "C15.R5", c.Method(childKeeper, "HostValidatorStore", "UpdateValidators"), []string{"(opchild/keeper.Keeper).UpdateHostValidatorSet"})
 		uv := c.Method(childKeeper, "HostValidatorStore", "UpdateValidators")
 		o := c.Ob("C15.R5", "UpdateValidators: the set and its height are replaced only for a strictly higher height, and the new height is recorded")
